@@ -1,0 +1,66 @@
+//go:build verif
+
+// Machine-checked contracts for package crdt (internal): the entry-level
+// last-write-wins store on top of a mast tree. Read as text by /verif (gowp);
+// no executable code. T(id) is the abstract content of a mast snapshot and
+// akey(k) the abstract identity of a key (see /verif/trusted/mast.contracts).
+package crdt
+
+//@ spec withPrev(v crdt.Value, p string) crdt.Value = crdt.Value{ModEpochNanos: v.ModEpochNanos, PreviousRoot: p, TombstoneSinceEpochNanos: v.TombstoneSinceEpochNanos, Value: v.Value}
+//@ spec srcOf(c *Tree) string = ite(c.Source != nil, *c.Source, "")
+
+// what update leaves under the key: the winner of the documented join; when
+// the new value wins over an existing one it records the current version as
+// its predecessor (for history)
+//@ spec updated(had bool, ex crdt.Value, cv crdt.Value, src string) crdt.Value = ite(!had, cv, ite(lwwFirst(cv, ex), withPrev(cv, src), ex))
+
+//@ func emptyValue
+//@   modifies nothing
+//@   ensures result.ModEpochNanos == 0 && result.TombstoneSinceEpochNanos == 0 && result.PreviousRoot == ""
+
+//@ func (*Tree).update
+//@   requires c != nil && c.Mast != nil
+//@   modifies *c.Mast
+//@   ensures stored: imp(err == nil, has(T(*c.Mast), akey(key)) && T(*c.Mast)[akey(key)] == updated(old(has(T(*c.Mast), akey(key))), old(T(*c.Mast)[akey(key)]), cv, srcOf(c)))
+//@   ensures others: forall a int :: imp(err == nil && a != akey(key), has(T(*c.Mast), a) == old(has(T(*c.Mast), a)) && T(*c.Mast)[a] == old(T(*c.Mast)[a]))
+
+//@ func (*Tree).Set
+//@   requires c != nil && c.Mast != nil
+//@   modifies *c.Mast
+//@   ensures stored: imp(err == nil, has(T(*c.Mast), akey(key)) && T(*c.Mast)[akey(key)] == updated(old(has(T(*c.Mast), akey(key))), old(T(*c.Mast)[akey(key)]), crdt.Value{ModEpochNanos: wrap64(ns(when)), Value: value}, srcOf(c)))
+//@   ensures others: forall a int :: imp(err == nil && a != akey(key), has(T(*c.Mast), a) == old(has(T(*c.Mast), a)) && T(*c.Mast)[a] == old(T(*c.Mast)[a]))
+
+//@ func (*Tree).Tombstone
+//@   requires c != nil && c.Mast != nil
+//@   modifies *c.Mast
+//@   ensures stored: imp(err == nil, has(T(*c.Mast), akey(key)) && T(*c.Mast)[akey(key)] == updated(old(has(T(*c.Mast), akey(key))), old(T(*c.Mast)[akey(key)]), crdt.Value{ModEpochNanos: wrap64(ns(when)), TombstoneSinceEpochNanos: wrap64(ns(when))}, srcOf(c)))
+//@   ensures others: forall a int :: imp(err == nil && a != akey(key), has(T(*c.Mast), a) == old(has(T(*c.Mast), a)) && T(*c.Mast)[a] == old(T(*c.Mast)[a]))
+
+// Get: a tombstone makes the key absent, whatever its stamp.
+//@ func (*Tree).Get
+//@   requires c != nil && c.Mast != nil && typeis(value, *crdt.Value) && value.(*crdt.Value) != nil
+//@   modifies *value.(*crdt.Value)
+//@   ensures found: imp(err == nil, result0 == (has(T(*c.Mast), akey(key)) && !tomb(T(*c.Mast)[akey(key)])))
+//@   ensures value: imp(err == nil && result0, *value.(*crdt.Value) == T(*c.Mast)[akey(key)])
+//@   ensures error: imp(err != nil, !result0)
+
+//@ func (*Tree).IsTombstoned
+//@   requires c != nil && c.Mast != nil
+//@   modifies nothing
+//@   ensures imp(err == nil, result0 == (has(T(*c.Mast), akey(key)) && tomb(T(*c.Mast)[akey(key)])))
+
+//@ func (Tree).Clone
+//@   requires c.Mast != nil
+//@   modifies nothing
+//@   ensures imp(err == nil, result0 != nil && fresh(result0) && result0.Mast != nil && fresh(result0.Mast) && *result0.Mast == *c.Mast &&
+//@       result0.Source == c.Source && result0.Created == c.Created && result0.MergeSources == c.MergeSources && result0.MergeMode == c.MergeMode)
+
+//@ func (Tree).IsDirty
+//@   requires c.Mast != nil
+//@   modifies nothing
+//@   ensures result == mastDirty(*c.Mast)
+
+//@ func (*Tree).Size
+//@   requires c != nil && c.Mast != nil
+//@   modifies nothing
+//@   ensures result == mastSize(*c.Mast)
